@@ -603,6 +603,19 @@ def extract_html5(defs, consts):
         else:
             defs.append(f"def {name} : List Char := {lean_str(text)}\n")
         consts[name] = text
+    # the frame bookkeeping the model transcribes (`HState.frames`, `htmlDeclarations`, `htmlInitState`)
+    sq = squeeze(body)
+    for piece, what in (
+            (".filter(|(p,ns)|*p!=self.xot.empty_prefix()||*ns==namespace_id)", "own declarations filtered before the push"),
+            ("letmutframes=ifdeclarations.is_empty(){0}else{1};self.fullname_serializer.push(declarations);", "frame count of the own declarations"),
+            ("self.fullname_serializer.push(vec![(self.xot.empty_prefix(),namespace_id)]);frames+=1;self.frames.push(frames);", "injected binding pushed as its own frame"),
+            ("for_in0..self.frames.pop().unwrap_or(0){self.fullname_serializer.pop(true);}", "end tag pops the frames pushed")):
+        if piece not in sq:
+            raise ExtractError(f"html frames: `{what}` not found in Html5Serializer::render_output (expected `{piece}`)")
+    nb = squeeze(fn_body(ssrc, "new", "Html5Serializer::new"))
+    if ".namespaces_in_scope(node).filter(|(p,ns)|*p!=xot.empty_prefix()||Some(*ns)==top_namespace)" not in nb or \
+            "lettop_namespace=xot.element(node).map(|e|xot.namespace_for_name(e.name()));" not in nb:
+        raise ExtractError("html frames: Html5Serializer::new does not filter the inherited default namespace as expected")
     m = re.search(r"data\.contains\(\s*" + CHAR + r"\s*\)", body)
     if not m or len(unescape(m.group(1))) != 1:
         raise ExtractError("htmlPiForbidden: `data.contains('c')` not found in Html5Serializer::render_output")
